@@ -5,7 +5,7 @@
    top-level values of the extracted file share a name (definitions in different Coq
    files must have distinct names). *)
 From Coq Require Import Extraction ExtrOcamlBasic NArith ZArith QArith Qreduction List.
-From JLS Require Import Generated CrcDefs Spec StatsQ.
+From JLS Require Import Generated CrcDefs Spec StatsQ MrbModel.
 Extraction Language OCaml.
 Extraction "jlsmodel_ext"
   BinInt.Z.add BinInt.Z.opp BinInt.Z.of_N BinInt.Z.to_N BinNat.N.add BinNat.N.mul BinNat.N.of_nat BinNat.N.to_nat
@@ -14,4 +14,5 @@ Extraction "jlsmodel_ext"
   Spec.rd_window Spec.anno_seek_range Spec.utc_from Spec.find_sig Spec.str_read Spec.pack
   Qreduction.Qred
   StatsQ.stats_reset StatsQ.stats_compute_f64 StatsQ.stats_compute_f32 StatsQ.stats_add StatsQ.stats_add_list
-  StatsQ.stats_var StatsQ.stats_copy_store StatsQ.stats_combine_store StatsQ.stats_combine StatsQ.stats_of.
+  StatsQ.stats_var StatsQ.stats_copy_store StatsQ.stats_combine_store StatsQ.stats_combine StatsQ.stats_of
+  MrbModel.init MrbModel.alloc MrbModel.alloc_fixed MrbModel.fill_fast MrbModel.peek MrbModel.pop MrbModel.read_msg MrbModel.extents.
